@@ -34,8 +34,8 @@ def runs_of(obj):
         raise AnalysisError("expected a FmtStr model value, got %r" % (obj,))
     out = []
     for c in obj.fields.get("chunks", []):
-        a = c.fields.get("_atts")
-        out.append((c.fields.get("_s"), dict(a.payload) if isinstance(a, Obj) else dict(a or {})))
+        a = c.fields.get("_atts", c.fields.get("atts"))
+        out.append((c.fields.get("_s", c.fields.get("s")), dict(a.payload) if isinstance(a, Obj) else dict(a or {})))
     return out
 
 
@@ -156,6 +156,7 @@ def check(src, rep):
     rep.guard(rule_t4, src, rep, it, fg, bg, sty, counts)
     rep.guard(rule_guard_key, src, rep, counts)
     rep.guard(rule_t6, src, rep, it, counts)
+    rep.guard(rule_lookalikes, src, rep, it, counts)
     rep.guard(rule_t2, src, rep, it, counts)
     rep.guard(rule_structure, src, rep, counts)
     rep.guard(rule_concrete, src, rep, it, fg, bg, sty, counts)
@@ -413,6 +414,14 @@ INVALID = [
     ("style number", (), {"style": 1}),
     ("style False", (), {"style": False}),
     ("fg None", (), {"fg": None}),
+    # mis-typed values that are tuples (an error message built with % must not choke on them)
+    ("tuple positional", (("red", "bold"),), {}),
+    ("style empty tuple", (), {"style": ()}),
+    ("fg tuple", (), {"fg": (31, 1)}),
+    ("bg empty tuple", (), {"bg": ()}),
+    # a style switched on by a mixed-case name and off by keyword: wrong in either reading of mixed case
+    ("mixed-case style on, keyword off", ("BOLD",), {"bold": False}),
+    ("mixed-case style= on, keyword off", (), {"style": "Underline", "underline": False}),
 ]
 MIXED_CASE = [("RED",), ("Red",), ("ON_BLUE",), ("On_Blue",), ("BOLD",), ("on_BLUE",)]
 
@@ -591,6 +600,29 @@ def rule_t6(src, rep, it, counts):
     if not bad:
         rep.ob("T6-shared-atts-sound", f.where(), f.scope, "%d run layouts (1-3 runs, empty runs included)" % n, True)
     counts["shared_atts_layouts"] = n
+
+
+def rule_lookalikes(src, rep, it, counts):
+    """T9: formatting a FmtStr gives that FmtStr's runs plus the named attributes - also when another FmtStr that merely DISPLAYS the
+    same (and therefore compares and hashes equal) was formatted just before in the same process."""
+    f = src.func("formatstring", "fmtstr")
+    pairs = [({"bold": False}, {}), ({"fg": 31, "underline": False}, {"fg": 31}), ({}, {"blink": False})]
+    n = 0
+    for a, b in pairs:
+        for first, second in ((a, b), (b, a)):
+            x, y = mk(it, ("hey", first)), mk(it, ("hey", second))
+            call_fmtstr(it, x)
+            call_fmtstr(it, x, "on_blue")
+            for label, r, exp in (("fmtstr(g)", call_fmtstr(it, y), dict(second)), ("fmtstr(g, 'on_blue')", call_fmtstr(it, y, "on_blue"), dict(second, bg=44))):
+                if r[0] == "opaque":
+                    raise AnalysisError("fmtstr of a FmtStr outside the evaluated subset: %s" % r[1])
+                n += 1
+                rep.case(True)
+                ok = r[0] == "ok" and runs_of(r[1]) == [("hey", exp)]
+                rep.ob("T9-formatting-a-value-does-not-depend-on-look-alikes", f.where(), f.scope,
+                       "%s with g = 'hey' %s, right after the same calls on f = 'hey' %s (f and g display the same)" % (label, second, first), ok,
+                       "gives %s, expected the attributes %s" % (runs_of(r[1]) if r[0] == "ok" else r, exp), witness={"first": str(first), "second": str(second)})
+    counts["lookalike_calls"] = n
 
 
 def rule_t2(src, rep, it, counts):
